@@ -7,7 +7,7 @@ from ..common import eqstar, plain, Digest
 
 PLAN = {
     "quick": {"shards": 8, "cases": 3000, "min_nontrivial": 12000, "budget_s": 300},
-    "thorough": {"shards": 16, "cases": 6000, "min_nontrivial": 50000, "budget_s": 1500},
+    "thorough": {"shards": 16, "cases": 20000, "min_nontrivial": 112000, "budget_s": 1500},
 }
 RULE = ("a case is one field spec (family x boundary-valued constructor options; containers with every item/key/value "
         "family) attached to a real schema/configuration with a sandbox key file, plus 30-80 candidate values (each "
